@@ -117,44 +117,74 @@ type schedOutcome struct {
 	ranOnClose int
 }
 
+// schedPlan yields the tasks of phase ph (nil: no more phases).  The single-burst kinds have one
+// phase.  The staged kinds are multi-step deadline sequences: phase 0 queues near and far-future
+// tasks together; every later phase starts only after all tasks that were due have RUN (plus a
+// random pause, so the workers have finished their timer pass and re-armed for what is left) and
+// submits tasks whose deadlines lie between "now" and the far deadlines still pending.
+func schedPlan(sc schedScenario, rng *vrng, phases int) func(ph int, base time.Time) []*schedTask {
+	staged := sc.Kind == "staged-hour" || sc.Kind == "staged-secs"
+	farAt := func(base time.Time) time.Time {
+		if sc.Kind == "staged-secs" {
+			return base.Add(2*time.Second + time.Duration(rng.intn(4000))*time.Millisecond)
+		}
+		return base.Add(time.Hour + time.Duration(rng.intn(1000))*time.Second)
+	}
+	return func(ph int, base time.Time) []*schedTask {
+		var out []*schedTask
+		if !staged {
+			if ph > 0 {
+				return nil
+			}
+			for g := 0; g < sc.Gor; g++ {
+				for i := 0; i < sc.PerGor; i++ {
+					dl, class, far := schedDeadline(sc.Kind, rng, base, g, i, sc.PerGor)
+					out = append(out, &schedTask{class: class, deadline: dl, far: far})
+				}
+			}
+			return out
+		}
+		if ph >= phases {
+			return nil
+		}
+		if ph == 0 {
+			for n := sc.Parallel * (1 + rng.intn(3)); n > 0; n-- {
+				out = append(out, &schedTask{class: "near", deadline: base.Add(time.Duration(10+rng.intn(30)) * time.Millisecond)})
+			}
+			for n := sc.Parallel * (1 + rng.intn(3)); n > 0; n-- {
+				out = append(out, &schedTask{class: "far", deadline: farAt(base), far: true})
+			}
+		} else {
+			for n := sc.Parallel * (1 + rng.intn(4)); n > 0; n-- {
+				out = append(out, &schedTask{class: "near-after-far", deadline: base.Add(time.Duration(5+rng.intn(55)) * time.Millisecond)})
+			}
+			for n := rng.intn(3); n > 0; n-- {
+				out = append(out, &schedTask{class: "far", deadline: farAt(base), far: true})
+			}
+		}
+		for k := len(out) - 1; k > 0; k-- { // arrival order: near-then-far, far-then-near, interleaved
+			l := rng.intn(k + 1)
+			out[k], out[l] = out[l], out[k]
+		}
+		return out
+	}
+}
+
 func schedRunScenario(t *testing.T, sc schedScenario, rng *vrng, rep *vreport, lg *vlog) schedOutcome {
 	ts := NewTimedSched(sc.Parallel)
 	defer ts.Close()
 	var out schedOutcome
-	total := sc.Gor * sc.PerGor
-	tasks := make([]*schedTask, total)
-	base := time.Now().Add(2 * time.Millisecond)
-	var lastNear time.Time
-	for g := 0; g < sc.Gor; g++ {
-		for i := 0; i < sc.PerGor; i++ {
-			dl, class, far := schedDeadline(sc.Kind, rng, base, g, i, sc.PerGor)
-			tk := &schedTask{id: g*sc.PerGor + i, class: class, deadline: dl, far: far}
-			tasks[tk.id] = tk
-			if !far && dl.After(lastNear) {
-				lastNear = dl
-			}
-			rep.Distribution["deadline-"+class]++
-		}
-	}
-	if lastNear.Before(base) {
-		lastNear = base
-	}
-	// control timers: the machine's own timer + goroutine wake-up latency during this scenario
+	var tasks []*schedTask
+	plan := schedPlan(sc, rng, 2+rng.intn(3))
+	// control: the machine's own timer + goroutine wake-up latency during this scenario
 	var ctlMax atomic.Int64
-	var ctlWG sync.WaitGroup
-	for c := 0; c < 8; c++ {
-		d := base.Add(time.Duration(c*8) * time.Millisecond)
-		ctlWG.Add(1)
-		time.AfterFunc(time.Until(d), func() {
-			l := int64(time.Since(d))
-			for {
-				o := ctlMax.Load()
-				if l <= o || ctlMax.CompareAndSwap(o, l) {
-					break
-				}
+	ctlNote := func(l int64) {
+		for {
+			o := ctlMax.Load()
+			if l <= o || ctlMax.CompareAndSwap(o, l) {
+				return
 			}
-			ctlWG.Done()
-		})
+		}
 	}
 	// heartbeat: oversleep of 1 ms sleeps from now until the verdict (a stall of the process or of the
 	// Go scheduler after the control timers have fired must widen the slack as well)
@@ -165,66 +195,95 @@ func schedRunScenario(t *testing.T, sc schedScenario, rng *vrng, rep *vreport, l
 		for !hbStop.Load() {
 			t0 := time.Now()
 			time.Sleep(time.Millisecond)
-			l := int64(time.Since(t0) - time.Millisecond)
-			for {
-				o := ctlMax.Load()
-				if l <= o || ctlMax.CompareAndSwap(o, l) {
-					break
-				}
-			}
+			ctlNote(int64(time.Since(t0) - time.Millisecond))
 		}
 	}()
-	// submit concurrently
-	start := make(chan struct{})
-	var wg sync.WaitGroup
-	for g := 0; g < sc.Gor; g++ {
-		wg.Add(1)
-		go func(g int) {
-			defer wg.Done()
-			<-start
-			for i := 0; i < sc.PerGor; i++ {
-				tk := tasks[g*sc.PerGor+i]
-				if tk.class == "now" {
-					tk.deadline = time.Now()
-				}
-				tk.putAt = time.Now()
-				ts.Put(tk.body, tk.deadline)
-				if i%7 == 3 {
-					runtime.Gosched()
-				}
-			}
-		}(g)
-	}
-	close(start)
-	wg.Wait()
-	putDone := time.Now()
-	if putDone.After(lastNear) {
-		lastNear = putDone
-	}
-	ctlWG.Wait()
-	// wait for every task that is due; the limit is generous and scales with the control latency
 	limit := func() time.Duration {
 		return schedBaseSlack + schedCtlFactor*time.Duration(ctlMax.Load())
 	}
-	allDone := func() bool {
-		for _, tk := range tasks {
-			if !tk.far && tk.runs.Load() == 0 {
-				return false
+	due := func(tk *schedTask) time.Time {
+		if tk.putAt.After(tk.deadline) {
+			return tk.putAt
+		}
+		return tk.deadline
+	}
+	phasesRun := 0
+	for ph := 0; ; ph++ {
+		base := time.Now().Add(2 * time.Millisecond)
+		batch := plan(ph, base)
+		if batch == nil {
+			break
+		}
+		phasesRun++
+		for _, tk := range batch {
+			tk.id = len(tasks)
+			tasks = append(tasks, tk)
+			rep.Distribution["deadline-"+tk.class]++
+		}
+		// control timers: plain runtime timers over the span of this phase's deadlines
+		var ctlWG sync.WaitGroup
+		for c := 0; c < 8; c++ {
+			d := base.Add(time.Duration(c*8) * time.Millisecond)
+			ctlWG.Add(1)
+			time.AfterFunc(time.Until(d), func() {
+				ctlNote(int64(time.Since(d)))
+				ctlWG.Done()
+			})
+		}
+		// submit concurrently: goroutine g puts batch[g], batch[g+Gor], ...
+		start := make(chan struct{})
+		var wg sync.WaitGroup
+		for g := 0; g < sc.Gor; g++ {
+			wg.Add(1)
+			go func(g int) {
+				defer wg.Done()
+				<-start
+				for i := g; i < len(batch); i += sc.Gor {
+					tk := batch[i]
+					if tk.class == "now" {
+						tk.deadline = time.Now()
+					}
+					tk.putAt = time.Now()
+					ts.Put(tk.body, tk.deadline)
+					if i%7 == 3 {
+						runtime.Gosched()
+					}
+				}
+			}(g)
+		}
+		close(start)
+		wg.Wait()
+		ctlWG.Wait()
+		// wait until every task that is due has run; the limit is generous and scales with the
+		// control latency
+		lastDue := time.Now()
+		for _, tk := range batch {
+			if d := due(tk); !tk.far && d.After(lastDue) {
+				lastDue = d
 			}
 		}
-		return true
+		allDone := func() bool {
+			for _, tk := range tasks {
+				if !tk.far && tk.runs.Load() == 0 {
+					return false
+				}
+			}
+			return true
+		}
+		for !allDone() && time.Since(lastDue) < limit()+50*time.Millisecond {
+			time.Sleep(time.Millisecond)
+		}
+		// let the workers finish their pass (and let a duplicate execution show up)
+		time.Sleep(time.Duration(5+rng.intn(25)) * time.Millisecond)
 	}
-	for !allDone() && time.Since(lastNear) < limit()+50*time.Millisecond {
-		time.Sleep(time.Millisecond)
-	}
-	time.Sleep(15 * time.Millisecond) // let a duplicate execution show up
 	hbStop.Store(true)
 	<-hbDone
 	slack := limit()
+	total := len(tasks)
 	out.ctlMax = time.Duration(ctlMax.Load())
 	out.tasks = total
 	replay := func(tk *schedTask) map[string]any {
-		return map[string]any{"scenario": sc, "task": tk.id, "class": tk.class,
+		return map[string]any{"scenario": sc, "task": tk.id, "class": tk.class, "phases": phasesRun,
 			"deadline_minus_put_us": tk.deadline.Sub(tk.putAt).Microseconds(),
 			"runs":                  tk.runs.Load(), "late_us": time.Duration(tk.lateNs.Load()).Microseconds(),
 			"control_latency_us": out.ctlMax.Microseconds(), "slack_ms": slack.Milliseconds(),
@@ -244,8 +303,15 @@ func schedRunScenario(t *testing.T, sc schedScenario, rng *vrng, rep *vreport, l
 			continue
 		}
 		rep.Monitors["prompt"]++
+		if tk.class == "near-after-far" {
+			rep.Monitors["far-future-no-delay"]++
+		}
 		if n == 0 {
-			rep.violate("sched-task-lost", fmt.Sprintf("task of class %s not executed %v after it was due (%s, parallel=%d, %s)", tk.class, time.Since(lastNear), sc.Kind, sc.Parallel, sc.Mode), replay(tk))
+			key := "sched-task-lost"
+			if tk.class == "near-after-far" { // submitted while far-future tasks were pending
+				key = "sched-far-future-delays"
+			}
+			rep.violate(key, fmt.Sprintf("task of class %s not executed %v after it was due, slack %v (%s, parallel=%d, %s)", tk.class, time.Since(due(tk)), slack, sc.Kind, sc.Parallel, sc.Mode), replay(tk))
 			continue
 		}
 		late := time.Duration(tk.lateNs.Load())
@@ -275,8 +341,8 @@ func schedRunScenario(t *testing.T, sc schedScenario, rng *vrng, rep *vreport, l
 			rep.Distribution["late>=100ms"]++
 		}
 	}
-	lg.printf("scenario kind=%s parallel=%d round=%d gor=%d per=%d mode=%s -> tasks=%d timerpath=%d worstlate_us=%d control_us=%d slack_ms=%d\n",
-		sc.Kind, sc.Parallel, sc.Round, sc.Gor, sc.PerGor, sc.Mode, total, out.timerPath, out.worstLate.Microseconds(), out.ctlMax.Microseconds(), slack.Milliseconds())
+	lg.printf("scenario kind=%s parallel=%d round=%d gor=%d phases=%d mode=%s -> tasks=%d timerpath=%d worstlate_us=%d control_us=%d slack_ms=%d\n",
+		sc.Kind, sc.Parallel, sc.Round, sc.Gor, phasesRun, sc.Mode, total, out.timerPath, out.worstLate.Microseconds(), out.ctlMax.Microseconds(), slack.Milliseconds())
 	return out
 }
 
@@ -404,7 +470,7 @@ func TestVerifC17(t *testing.T) {
 	if vThorough() {
 		rounds = vEnvInt("VERIF_C17_ROUNDS", 40)
 	}
-	kinds := []string{"past", "now", "equal", "increasing", "decreasing", "farfirst", "mixed"}
+	kinds := []string{"past", "now", "equal", "increasing", "decreasing", "farfirst", "mixed", "staged-hour", "staged-secs"}
 	pars := []int{1, 2, max(runtime.NumCPU(), 2)}
 	if only := os.Getenv("VERIF_C17_ONLY"); only != "" { // replay of one scenario class: "<kind>:<parallel>"
 		var k string
@@ -425,12 +491,15 @@ func TestVerifC17(t *testing.T) {
 				if k == "farfirst" {
 					sc.Gor = 1 + rng.intn(3)
 				}
+				if k == "staged-hour" || k == "staged-secs" {
+					sc.Gor, sc.PerGor = 1+rng.intn(4), 0 // batch sizes are drawn per phase (multiples of the parallelism)
+				}
 				o := schedRunScenario(t, sc, rng, rep, lg)
 				rep.Cases++
 				rep.Steps += o.tasks
 				rep.Distribution[fmt.Sprintf("parallel=%d", p)]++
 				rep.Distribution["scenario-"+k]++
-				if sc.Gor >= 2 && o.timerPath > 0 {
+				if (sc.Gor >= 2 || sc.PerGor == 0) && o.timerPath > 0 {
 					rep.Nontrivial++
 				}
 				if o.worstLate > worstLate {
